@@ -265,6 +265,158 @@ def c07(tier):
     return finish(prop, tier, t0, viols, cov)
 
 
+# ------------------------------------------------------------------ C19 (and the C16 driver)
+
+PROGRAM_SETS = {
+    "quick": [
+        [["encrypt", "encaps"], ["header_md", "keygen"]],
+        [["encaps", "decaps"], ["refresh", "encrypt"]],
+        [["header_md", "header_md"], ["encrypt", "decaps"]],
+        [["encrypt"], ["header_md"], ["keygen"]],
+    ],
+    "thorough": [
+        [["encrypt", "encaps"], ["header_md", "keygen"]],
+        [["encaps", "decaps"], ["refresh", "encrypt"]],
+        [["header_md", "header_md"], ["encrypt", "decaps"]],
+        [["encrypt", "encrypt"], ["encrypt", "encrypt"]],
+        [["rekey", "header_md"], ["decaps", "encrypt"]],
+        [["encrypt"], ["header_md"], ["keygen"]],
+        [["encrypt", "encaps"], ["header_md"], ["refresh", "decaps"]],
+        [["encrypt", "header_md", "encaps"], ["header_md", "encrypt", "keygen"]],
+    ],
+}
+
+
+def tla_seq(x):
+    if isinstance(x, list):
+        return "<<" + ", ".join(tla_seq(y) for y in x) + ">>"
+    return json.dumps(x)
+
+
+def rng_mc(wd, programs, idx, nested="{}"):
+    mod = os.path.join(wd, f"MC_Rng{idx}.tla")
+    with open(mod, "w") as f:
+        f.write(f"---- MODULE MC_Rng{idx} ----\nEXTENDS RngConc\nP == {tla_seq(programs)}\n====\n")
+    cfg = os.path.join(wd, f"MC_Rng{idx}.cfg")
+    with open(cfg, "w") as f:
+        f.write(f"SPECIFICATION SpecMC\nCONSTANTS\n  Programs <- P\n  Nested = {nested}\n"
+                "INVARIANT Mutex\nINVARIANT Fresh\nINVARIANT PrintSchedule\nPROPERTY Terminates\n")
+    r = tlc(mod, cfg, wd, workers=1, timeout=600, xmx="4g", env_extra={"JAVA_TOOL_OPTIONS": f"-Xss1g -DTLA-Library={SPEC}"})
+    return r
+
+
+def run_conc(wd, sched_path, obs, stress, threads):
+    """Runs the harness, resuming after a schedule that made a call hang (exit code 3)."""
+    import subprocess
+    from common import BIN
+    start = 0
+    n = sum(1 for _ in open(sched_path))
+    while True:
+        cmd = [BIN["default"], "conc", "--schedules", sched_path, "--out", obs, "--from", str(start),
+               "--stress", str(stress), "--threads", str(threads), "--seed", str(seed())]
+        p = subprocess.run(cmd, capture_output=True, text=True, timeout=3000)
+        if p.returncode == 0:
+            return
+        if p.returncode != 3:
+            raise ToolError(f"conc harness exited {p.returncode}: {p.stderr[-1500:]}")
+        done = sum(1 for l in open(obs) if l.startswith('{"k":"run"'))
+        if done >= n or done <= start:
+            return
+        start = done
+        stress = 0
+
+
+def c19(tier):
+    t0 = time.time()
+    prop = "C19"
+    wd = workdir(prop)
+    build_harness("default")
+    states = trans = 0
+    schedules = []
+    for i, programs in enumerate(PROGRAM_SETS[tier]):
+        r = rng_mc(wd, programs, i)
+        if "Model checking completed. No error" not in r["out"]:
+            path = os.path.join(wd, f"rng_mc_{i}.txt")
+            with open(path, "w") as f:
+                f.write(r["out"])
+            print(f"VIOLATION property={prop} replay={path}")
+            log("  RngConc.tla: TLC reports a deadlock / violated property for programs " + json.dumps(programs))
+            return 1
+        states += r["distinct"]
+        trans += r["generated"]
+        schedules += tagged(r["out"], "SCHEDULE")
+    # binding self-test: the nested acquisition the comment in PkeAc::encrypt warns about must deadlock in the model
+    st = rng_mc(wd, PROGRAM_SETS["quick"][0], 99, nested='{"encrypt"}')
+    selftest = "Deadlock reached" in st["out"]
+    if tier == "quick" and len(schedules) > 400:
+        schedules = schedules[::max(1, len(schedules) // 400)]
+    sched_path = os.path.join(wd, "schedules.ndjson")
+    with open(sched_path, "w") as f:
+        for s in schedules:
+            f.write(json.dumps(s) + "\n")
+    obs = os.path.join(wd, "observed.ndjson")
+    run_conc(wd, sched_path, obs, 25 if tier == "quick" else 400, 4 if tier == "quick" else 8)
+    cfg = os.path.join(wd, "RngConcTrace.cfg")
+    with open(cfg, "w") as f:
+        f.write("SPECIFICATION SpecTrace\nCHECK_DEADLOCK FALSE\n")
+    c = tlc(os.path.join(SPEC, "RngConcTrace.tla"), cfg, wd, env_extra={"TRACE": obs}, workers=1, timeout=1500, xmx="4g")
+    if "CHECK-DONE" not in c["out"]:
+        raise ToolError("RngConcTrace did not consume the observed events:\n" + c["out"][-3000:])
+    viols = []
+    for line in c["out"].splitlines():
+        if line.startswith('<<"VIOL"'):
+            body = line[line.index(",") + 1:line.rindex(">>")].strip()
+            ln, rest = body.split(",", 1)
+            what = rest.strip()[1:].split('",', 1)[0]
+            viols.append({"what": what, "cause": what, "detail": {"line": int(ln), "trace": obs}})
+    with open(obs) as f:
+        recs = [json.loads(l) for l in f]
+    runs = [r for r in recs if r["k"] == "run"]
+    cov = {
+        "states": max(1, states + c["distinct"]), "transitions": max(1, trans + c["generated"]),
+        "traces_validated_against_impl": len(runs),
+        "samples": [{"programs": s["programs"], "schedule": s["schedule"]} for s in schedules[:3]],
+        "evaluations": len(runs),
+        "distinct_nontrivial": len({json.dumps([r["programs"], r["schedule"]]) for r in runs if r["forced"] and len(set(r["schedule"])) > 1}),
+        "rule": "every interleaving of lock sections that TLC enumerates from RngConc.tla for the listed programs is forced on real "
+                "threads through the cfg-guarded lock wrapper; non-trivial = forced schedule in which at least two threads take the lock; "
+                "plus free-running stress runs validated against RngConcTrace.tla",
+        "forced_schedules": len([r for r in runs if r["forced"]]), "stress_runs": len([r for r in runs if not r["forced"]]),
+        "lock_events": len([r for r in recs if r["k"] == "ev"]),
+        "program_sets": PROGRAM_SETS[tier],
+        "model_selftest_nested_encrypt_deadlocks": selftest,
+        "exhaustive": tier == "thorough" or len(schedules) <= 400,
+    }
+    if not selftest:
+        raise ToolError("RngConc self-test failed: the nested acquisition does not deadlock in the model")
+    return finish(prop, tier, t0, viols, cov)
+
+
+def c16_fresh(tier, wd):
+    """C16 driver: long runs of identical calls, judged by RngConcTrace.tla. Returns (violations, coverage)."""
+    obs = os.path.join(wd, "fresh.ndjson")
+    n = 2000 if tier == "quick" else 50000
+    run_harness(["fresh", "--out", obs, "--n", str(n)], timeout=6000)
+    cfg = os.path.join(wd, "RngConcTrace.cfg")
+    with open(cfg, "w") as f:
+        f.write("SPECIFICATION SpecTrace\nCHECK_DEADLOCK FALSE\n")
+    c = tlc(os.path.join(SPEC, "RngConcTrace.tla"), cfg, wd, env_extra={"TRACE": obs}, workers=1, timeout=600, xmx="2g")
+    if "CHECK-DONE" not in c["out"]:
+        raise ToolError("RngConcTrace did not consume the freshness records:\n" + c["out"][-3000:])
+    with open(obs) as f:
+        recs = [json.loads(l) for l in f]
+    viols = []
+    for line in c["out"].splitlines():
+        if line.startswith('<<"VIOL"'):
+            body = line[line.index(",") + 1:line.rindex(">>")].strip()
+            ln, rest = body.split(",", 1)
+            what = rest.strip()[1:].split('",', 1)[0]
+            viols.append({"p": ["C16"], "what": what, "cause": "none", "detail": recs[int(ln) - 1], "hist": 0, "line": int(ln)})
+    cov = {"repeated_call_values": sum(r["total"] for r in recs), "repeated_call_categories": sorted({r["category"] for r in recs}),
+           "repeated_call_threads": sorted({r["threads"] for r in recs})}
+    return viols, cov
+
+
 def c12(tier):
     import sat_pke
     return sat_pke.check(tier)
@@ -275,7 +427,7 @@ def c14(tier):
     return sat_wire.check(tier)
 
 
-CHECKS = {"C15": c15, "C12": c12, "C14": c14, "C08": c08, "C07": c07}
+CHECKS = {"C15": c15, "C12": c12, "C14": c14, "C08": c08, "C07": c07, "C19": c19}
 
 
 def replay(prop, path):
